@@ -75,6 +75,61 @@ func selectCaseAppends(p *an.Prog, fn *ssa.Function) (send, recv []ssa.Instructi
 
 func notifierRules(c *Ctx) {
 	P := c.P
+	reflectKinds(c, "notifier.go")
+	// valueOfNotifierTarget returns only for a channel that can be sent to (the premise of every later reflect use of a
+	// subscriber's target; reflect.Select panics on a send case with a receive-only channel)
+	if q := c.F("valueOfNotifierTarget"); q.ok() {
+		send, okS := P.PkgConstInt("reflect", "SendDir")
+		dIfs, dNegs := P.IfsOn(q.fn, func(cond ssa.Value) bool {
+			b, ok := cond.(*ssa.BinOp)
+			if !ok || (b.Op != token.EQL && b.Op != token.NEQ) {
+				return false
+			}
+			isMask := func(v ssa.Value) bool {
+				a, isA := v.(*ssa.BinOp)
+				if !isA || a.Op != token.AND {
+					return false
+				}
+				kx, okx := constInt(a.X)
+				ky, oky := constInt(a.Y)
+				return okS && ((okx && kx == send) || (oky && ky == send))
+			}
+			isSend := func(v ssa.Value) bool { k, isK := constInt(v); return okS && isK && k == send }
+			return either(b, isMask, isSend)
+		})
+		okd := len(dIfs) == 1
+		if okd {
+			eq := 0
+			if dNegs[0] {
+				eq = 1
+			}
+			if stripNotV(dIfs[0].Cond).(*ssa.BinOp).Op == token.NEQ {
+				eq = 1 - eq
+			}
+			for _, r := range returnsOf(q.fn) {
+				if !q.onlyViaEdge(r, dIfs[0], eq) {
+					okd = false
+				}
+			}
+		}
+		q.add("PATH", "only a channel that can be sent to is accepted as a target", okd, pickS(okd, "the normal return is reached only through dir&SendDir == SendDir", "a receive-only channel can be registered as a target: the next Publish would panic inside reflect.Select"))
+		// subscribers store exactly that validated value
+		if sq := c.F("(*Notifier).SubscribeContext"); sq.ok() {
+			okt := true
+			sts := an.FieldStores(sq.fn, "notifierSubscriber.target")
+			for _, st := range sts {
+				if !P.IsCallResult(st.(*ssa.Store).Val, "valueOfNotifierTarget", 0) {
+					okt = false
+				}
+			}
+			for _, fn := range P.Funcs {
+				if fn != sq.fn && len(an.FieldStores(fn, "notifierSubscriber.target")) > 0 {
+					okt = false
+				}
+			}
+			sq.add("PROV", "a subscriber's target is the validated channel value", okt && len(sts) > 0, "target := valueOfNotifierTarget(target), stored nowhere else", sts...)
+		}
+	}
 	c.delegates("(*Notifier).Publish", "(*Notifier).PublishContext", "recv", "nil", "p1", "p2")
 	c.delegates("(*Notifier).Subscribe", "(*Notifier).SubscribeContext", "recv", "nil", "p1", "p2")
 	// SubscribeCancel: the watcher that unsubscribes on cancellation is started only after the subscription was made.
